@@ -254,4 +254,45 @@ theorem c11_gen_reap_uses_translated_recheck (ts : Gen.C11S.treeStorage) (id g g
     simp only [hd]
     simp only [viewS] at ha ⊢
     simp [step1, hf, ha]
+
+/-- `setIfMissing` as translated: the test, then exactly the body of `Set` -/
+private theorem gen_setIfMissing_unfold (ts : Gen.C11S.treeStorage) (k : Nat) (b : Bool) :
+    Gen.C11S.treeStorage_setIfMissing ts (some { ID := k }) b =
+      (if (!((Gen.Rt.Map.find ts.trees k).getD none).isNone) || (b && !(Gen.Rt.Map.find ts.trees k).isSome)
+       then some (false, ts)
+       else (Gen.C11S.treeStorage_Set ts (some { ID := k })).map fun x => (true, x)) := by
+  unfold Gen.C11S.treeStorage_setIfMissing Gen.C11S.treeStorage_Set
+  simp only []
+  split
+  · rfl
+  · cases (Gen.Rt.Map.insert? (Gen.C11S.treeStorage_cancelDeletion ts k).trees k (some { ID := k })) <;> rfl
+
+/-- **`setIfMissing` as translated is the model's `setIfMissing1`** on the view of the tree's id (non-nil map): the same
+flag, the same state of that id, every other id untouched — test and write are one function under one lock, which is
+what makes a handler one step -/
+theorem c11_gen_setIfMissing_eq (ts : Gen.C11S.treeStorage) (k g : Nat) (f : List Nat) (b : Bool) (hm : ts.trees.isSome) :
+    ∃ r, Gen.C11S.treeStorage_setIfMissing ts (some { ID := k }) b = some r ∧
+      r.1 = (setIfMissing1 (viewS ts k g f) k b).2 ∧ viewS r.2 k g f = (setIfMissing1 (viewS ts k g f) k b).1 ∧
+      ∀ j, j ≠ k → viewS r.2 j g f = viewS ts j g f := by
+  rw [gen_setIfMissing_unfold]
+  obtain ⟨ts', hset, hv, ho⟩ := c11_gen_Set_eq ts k g f hm
+  rcases Option.eq_none_or_eq_some (Gen.Rt.Map.find ts.trees k) with h | ⟨v, h⟩
+  · -- the slot is absent
+    have hs : (viewS ts k g f).slot = .absent := by simp [viewS, slotS, h]
+    cases b with
+    | true =>
+      refine ⟨(false, ts), by simp [h], ?_, ?_, fun _ _ => rfl⟩ <;> simp [setIfMissing1, hs]
+    | false =>
+      refine ⟨(true, ts'), by simp [h, hset], ?_, ?_, ho⟩
+      · simp [setIfMissing1, hs]
+      · simp only [setIfMissing1, hs]; exact hv
+  · cases v with
+    | none =>
+      have hs : (viewS ts k g f).slot = .requested := by simp [viewS, slotS, h]
+      refine ⟨(true, ts'), by simp [h, hset], ?_, ?_, ho⟩
+      · simp [setIfMissing1, hs]
+      · simp only [setIfMissing1, hs]; exact hv
+    | some t =>
+      have hs : (viewS ts k g f).slot = .present t.ID := by simp [viewS, slotS, h]
+      refine ⟨(false, ts), by simp [h], ?_, ?_, fun _ _ => rfl⟩ <;> simp [setIfMissing1, hs]
 end C11.Store
